@@ -27,6 +27,7 @@ type Msg struct {
 	Parts []*types.Part
 	Vote  *types.Vote
 	Byz   bool // produced by the explorer with the byzantine key (menu)
+	Var   int  // byzantine votes: index of the timestamp in the signer's timestamp menu {t0, t1, t2} (re-signed copies)
 	rank  int
 }
 
